@@ -329,9 +329,10 @@ func (e *pinEnv) apply(op pinOp) (err error, expected bool, desc string) {
 				if toPinned && toCur.rec {
 					return errors.New("Update to an already recursively pinned CID returned nil"), false, desc
 				}
-				if toPinned && !toCur.rec {
-					m.both[to] = toCur.name // dspinner keeps the direct pin next to the new recursive one
-				}
+				// recursive supersedes direct: a direct pin of `to` is replaced, as in Pin
+				// (an earlier version of this model tolerated the direct pin being kept
+				// next to the recursive one; it then came back when the recursive pin
+				// was moved on by another Update, see findings/C22-update-leaves-...)
 				m.pins[to] = modelPin{rec: true, name: cur.name}
 				if op.Unpin {
 					delete(m.pins, op.Node)
